@@ -204,3 +204,15 @@ claim('C13', 'translation_validation',
       _TB + '; the reference interpreter den() in vf/props/c13.py is written from the class documentation.',
       'symbolic execution of the real pattern streams + SMT equality against a denotational reference',
       'DESIGN.md 3/C13')
+
+claim('C11', 'model_checking',
+      'Bounded model checking of the real Routine against an explicit reference automaton: every history of 3 (quick) / '
+      '4 external operations over next, send, pause, resume, stop, reset, with the body\'s behaviour at every step chosen '
+      'by the decision tree among yield number (symbolic), yield object, return, raise, YieldAndReset, AlwaysYield, '
+      'self-stop/pause/reset, nested routine, nested routine that tries to stop/pause/reset its caller; after every '
+      'operation result/exception, state, current thread and the caller\'s logical time (z3) must agree. Condition / '
+      'FlowVar: every history of 5/6 operations (up to 2 waiters, signal, test changes, unhang, value assignment, '
+      'scheduler runs): a waiter resumes exactly once and only after test-true-and-signalled.',
+      _TB + '; finite control is enumerated completely by the decision tree; the solver decides value/time equalities.',
+      'decision-tree model checking of the real classes against a reference automaton + SMT equality of values/times',
+      'DESIGN.md 3/C11')
